@@ -46,6 +46,20 @@ Effective(a, tags) ==
   LET L == TagsLower(tags) IN
   IF T_income \in L \/ T_investment \in L THEN Abs(a) ELSE a
 
+\* what Bucket / Effective read off a tag list: its class.  Totals_Ind.tla (the unbounded-amount model discharged by Apalache)
+\* speaks about classes only; ClassAbstractionSoundOf ties it to the tag texts (checked by TLC on every tag list of MC_Totals)
+ClassOf(tags) == LET L == TagsLower(tags) IN
+  IF T_income \in L THEN "income" ELSE IF T_investment \in L THEN "investment" ELSE IF T_transfer \in L THEN "transfer" ELSE "none"
+BucketByClass(a, cl) ==
+  IF cl = "income" THEN "income" ELSE IF cl = "investment" THEN "investment"
+  ELSE IF cl = "transfer" THEN (IF a > 0 THEN "transfer_in" ELSE "transfer_out")
+  ELSE IF a > 0 THEN "spending" ELSE "credits"
+EffectiveByClass(a, cl) == IF cl \in {"income", "investment"} THEN Abs(a) ELSE a
+ClassAbstractionSoundOf(t) ==
+  /\ Bucket(t.amt, t.tags) = BucketByClass(t.amt, ClassOf(t.tags))
+  /\ Effective(t.amt, t.tags) = EffectiveByClass(t.amt, ClassOf(t.tags))
+  /\ Excluded(t.tags) = (ClassOf(t.tags) # "none")
+
 CashFlow(income, spending, credits) == income - spending + credits
 TransfersNet(tin, tout) == tin - tout
 
